@@ -180,6 +180,46 @@ class ThreadRunner(PoolRunner):
             self.add_coarse(scen, label, run)
         return run
 
+    def add(self, scen, label, run, extra=None):
+        """As PoolRunner.add; in addition an execution that shows the evict || activate race (a
+        connection is activated while it is outside the pool - KF09) is CUT right after that
+        quantum: what the racing threads do to each other afterwards (collateral failures, a closed
+        connection marked idle again, ...) is one defect, not a catalogue to be modelled."""
+        self.evaluations += 1
+        try:
+            tr = pooltrace.Encoder(run, **scen.enc).encode()
+        finally:
+            meta = {
+                "scenario": scen.id,
+                "label": list(label),
+                "decisions": "".join(n[-1] for n in run.sched.choices),
+                "stimuli": stimulus_class(label, run),
+                "outcomes": {n: (o.get("result"), o.get("exc")) for n, o in run.outcome.items()},
+                "script": extra,
+            }
+            run.finish()
+        last = {}
+        for i, e in enumerate(tr["ev"]):
+            o = e["obs"]
+            pooled = set(o["pool"])
+            raced = False
+            for c, cs in enumerate(o["cs"], 1):
+                prev = last.get(c)
+                if c not in pooled and cs["st"] == "active" and prev is not None and (prev["st"] != "active" or cs["cnt"] > prev["cnt"]):
+                    raced = True
+                last[c] = cs
+            if raced:
+                tr["ev"] = tr["ev"][: i + 1]
+                meta["cut_after_race_at"] = i + 1
+                break
+        key = hashlib.sha1(json.dumps(tr, sort_keys=True).encode()).hexdigest()
+        if key in self.seen:
+            self.seen[key]["dups"] += 1
+            return
+        item = {"scen": scen, "label": label, "trace": tr, "meta": meta, "dups": 0}
+        self.seen[key] = item
+        self.items.append(item)
+
     def add_coarse(self, scen, label, run):
         self.evaluations += 1
         try:
